@@ -329,7 +329,7 @@ func filterUniverseSQL() []abs.Filter {
 	ids := []abs.StrSet{{}, {P: true, S: []string{}}, {P: true, S: []string{"r1"}}, {P: true, S: []string{"r1", "p2", "x2", "k1"}}}
 	authors := []abs.StrSet{{}, {P: true, S: []string{"a"}}, {P: true, S: []string{"a", "b"}}}
 	kinds := []abs.IntSet{{}, {P: true, S: []int64{1}}, {P: true, S: []int64{0, 30000}}, {P: true, S: []int64{5}}}
-	tags := []map[string][]string{{}, {"t": {"x"}}, {"e": {"r1"}}, {"d": {"x"}}, {"a": {"30000:a:x"}}, {"t": {"x"}, "d": {"x", "y"}}, {"e": {"r1", "p2"}, "E": {"r1"}}, {"e": {"r1"}, "p": {"a"}, "E": {"r1"}}, {"t": {}}}
+	tags := []map[string][]string{{}, {"t": {"x"}}, {"t": {"x", "y"}}, {"e": {"r1"}}, {"d": {"x"}}, {"a": {"30000:a:x"}}, {"t": {"x"}, "d": {"x", "y"}}, {"e": {"r1", "p2"}, "E": {"r1"}}, {"e": {"r1"}, "p": {"a"}, "E": {"r1"}}, {"t": {}}}
 	times := [][2]abs.OptInt{{{}, {}}, {{P: true, V: 2}, {}}, {{}, {P: true, V: 2}}, {{P: true, V: 2}, {P: true, V: 3}}}
 	limits := []abs.OptInt{{}, {P: true, V: 0}, {P: true, V: 1}, {P: true, V: 2}}
 	var out []abs.Filter
